@@ -20,8 +20,6 @@ HOOKS = {
 CHECKS = {}
 
 NOT_APPLICABLE = {
-    "C18": "encode/decode fidelity of pydantic/JSON over an unbounded data domain: no state or transitions to "
-           "specify; a TLA+ transcription of pydantic's dumping rules would be a guess, not a model (DESIGN.md 6)",
     "C33": "tar/YAML/AES-GCM round-trip fidelity; `cryptography` is not installed so the encrypted half cannot run, "
            "and there is no state machine to model (DESIGN.md 6)",
 }
@@ -107,19 +105,48 @@ reg("C15", "model_checking",
     "real server stack 7 outcome kinds x 0..len(backoff) injected store-write failures are run; Obs_C15 judges the final "
     "row and the order of successful status writes.",
     SERVER_NOTE + " Write-fault sequences are bounded by len(persistence_backoff) as the statement's retry budget.", SERVER_TECH, "5/C15")
+reg("C18", "model_checking",
+    "TLC enumerates the shape grid of Serde.tla (class kind x typed field kinds x dynamic field kinds x result kind x exception "
+    "kind x 19 serialisation paths x single/double round trip) and checks the abstract writer/reader against the statement, "
+    "strictly on the intended design and with exact carve-outs on the model of today's code. Every enumerated vector is "
+    "concretised with importable generated event classes and pushed through the real JsonSerializer (bare and inside "
+    "containers), EventEnvelopeWithMetadata/EventEnvelope -> JSON -> load_event/parse, and every tick class through "
+    "WorkflowTickAdapter.dump_python(mode='json') -> JSON -> validate_python; Obs_C18 (extending Serde.tla) has TLC compare "
+    "canonical before/after texts per component: same class, equal typed fields, equal dynamic fields, equal result, exception "
+    "type and message kept, tick class/fields equal.",
+    "Bounded to shapes with at most 2 varied features; one fixed value table per kind with 2-3 representatives (empty, falsy, "
+    "non-ASCII, big int, nested). 'Equal' is Python ==, read through a canonical text cross-checked against ==. Not demanded: "
+    "non-JSON values in untyped slots, unimportable exception classes (documented fallback), __cause__, AddWaiter.requirements. "
+    "Assumed: event classes are importable top-level classes present in the registry on client-envelope paths. Outside the grid: "
+    "PickleSerializer, include_qualified_name=False, non-finite floats, non-string dict keys. This is a function-table use of "
+    "TLA+ (one TLC state = one test vector): the payload domain is sampled by the tables, not exhausted.",
+    "TLA+ function-table spec enumerated by TLC (design variant strict, code variant with known-shape carve-outs); exhaustive "
+    "execution of the grid on the real serialisers; TLC-evaluated property observer over recorded before/after projections",
+    "5/C18")
 reg("C26", "model_checking",
-    "Idle release/resume loses nothing and never double-runs (in-process stack). TLC checks IdleRelease.tla: release only "
+    "Idle release/resume loses nothing and never double-runs (both stacks). In-process: TLC checks IdleRelease.tla: release only "
     "when the engine has no queued/running/scheduled work, no event lost, active <=> one live loop. The real stack is "
     "driven through idle gaps around the timeout, two release/reload cycles, two concurrent senders to a released run and "
     "a send racing the deferred release in both callback orders; Obs_C26 judges processed events, live loops and what the "
-    "engine held at release.",
-    SERVER_NOTE + " The DBOS lifecycle-lock half of the statement is NOT covered (dbos/Postgres are not installed); claimed for the in-process stack only.",
+    "engine held at release. DBOS: TLC checks Lifecycle.tla (begin/complete release, crash timeout takeover, try_begin_resume, "
+    "one owner per release, liveness) and DbosIdleRelease.tla (timer, mailbox, check-then-send window); histories taken from "
+    "the paths of TLC's Lifecycle graph run on the real SqliteRunLifecycleLock under a virtual clock, the real "
+    "DBOSIdleReleaseDecorator runs over the real interceptor/persistence decorators, store and lock with every order of the "
+    "check-then-send window; TraceLifecycle/TraceDbosIdleRelease validate the recordings and Obs_C26_dbos judges them.",
+    SERVER_NOTE + " DBOS half: the dbos package and Postgres are not installed -- idle_release.DBOS is a two-call fake (send/recv mailbox), "
+    "PostgresRunLifecycleLock is not executed (same statements as the SQLite lock), and since RunLifecycleLock.create has no call site "
+    "the harness creates the lifecycle row itself for the race scenarios (findings that need the row carry row_created_by_harness in their key).",
     SERVER_TECH, "5/C26")
 reg("C36", "model_checking",
-    "Idle runs are released after idle_timeout and reloaded on demand (in-process stack): IdleRelease.tla checked by TLC "
+    "Idle runs are released after idle_timeout and reloaded on demand (both stacks). In-process: IdleRelease.tla checked by TLC "
     "(not released early, released run marked idle, reload on send); real stack driven with idle gaps below/at/above the "
-    "timeout, repeated cycles, concurrent senders; Obs_C36 judges release time, idle mark and continuation to the same result.",
-    SERVER_NOTE + " The DBOS half of the statement is NOT covered (dbos is not installed; DESIGN.md 7 notes RunLifecycleLock.create is never called).",
+    "timeout, repeated cycles, concurrent senders; Obs_C36 judges release time, idle mark and continuation to the same result. "
+    "DBOS: DbosIdleRelease.tla (design variant: released after the timeout, marked idle, reload continues; code-as-it-is variant "
+    "without the lifecycle row violates Live_Released as expected); the real DBOSIdleReleaseDecorator is driven with idle gaps "
+    "below/at/above idle_timeout with and without the row, two release/reload cycles and a timer-resetting event; "
+    "TraceDbosIdleRelease validates the recordings, Obs_C36_dbos judges them.",
+    SERVER_NOTE + " DBOS half: dbos/Postgres not installed -- idle_release.DBOS is a two-call fake, the SQLite lifecycle lock and store are real; "
+    "the statement fails on today's code because RunLifecycleLock.create is never called (recorded finding).",
     SERVER_TECH, "5/C36")
 
 
